@@ -325,7 +325,9 @@ def run_accept_task(task):
     stats = Stats()
     text = G.domain_text([("act", [], ["and"], ["and"])], const=True, types=task["types"],
                          extra_predicates=[["pa", "?a", "-", task["required"]]])
-    text = text.replace("(:functions", f"(:functions (fa ?a - {task['required']})")
+    req2 = task.get("required2", task["required"])
+    text = text.replace("(:predicates", f"(:predicates (pb ?a - {task['required']} ?b - {req2})")
+    text = text.replace("(:functions", f"(:functions (fa ?a - {task['required']}) (fb ?a - {task['required']} ?b - {req2})")
     tv = z3.Int("objtype")
     parent = {"t4": "t3", "t3": "t1", "t1": "object", "t2": "object", "object": None}
 
@@ -349,6 +351,13 @@ def run_accept_task(task):
         try:
             if task["what"] == "fact":
                 pp.parse_grounded_predicate(["pa", "ob"], dom.predicates["pa"])
+            elif task["what"] == "fact_repeated_object":
+                pp.parse_grounded_predicate(["pb", "ob", "ob"], dom.predicates["pb"])
+            elif task["what"] == "fluent_repeated_object":
+                pp.parse_grounded_numeric_fluent(["fb", "ob", "ob"])
+            elif task["what"] == "trajectory_fluent_repeated_object":
+                from pddl_plus_parser.lisp_parsers import TrajectoryParser
+                TrajectoryParser(dom, pp.problem).parse_grounded_numeric_fluent(["fb", "ob", "ob"])
             else:
                 pp.parse_grounded_numeric_fluent(["fa", "ob"])
             accepted = True
@@ -364,11 +373,13 @@ def run_accept_task(task):
             return
         tname, accepted = pr.value
         res["obligations"] += 1
-        if accepted != below(tname, task["required"]) and res["outcome"] != "violation":
+        want = below(tname, task["required"]) and below(tname, req2)
+        if accepted != want and res["outcome"] != "violation":
             res["outcome"] = "violation"
-            res["cex"] = {"what": f"{task['what']} over an object of type {tname} where {task['required']} is required: "
-                                  f"accepted={accepted}, subtype={below(tname, task['required'])}",
-                          "types_tokens": task["types"], "object_type": tname, "required": task["required"], "kind": task["what"]}
+            res["cex"] = {"what": f"{task['what']} over an object of type {tname} where {task['required']}"
+                                  f"{' and ' + req2 if 'repeated' in task['what'] else ''} is required: accepted={accepted}, subtype={want}",
+                          "types_tokens": task["types"], "object_type": tname, "required": task["required"], "required2": req2,
+                          "kind": task["what"]}
 
     try:
         explore(fn, on_path, stats=stats, timeout_ms=10000)
@@ -390,6 +401,10 @@ def accept_tasks():
         for req in ("t1", "t3", "t4", "t2", "object"):
             for what in ("fact", "fluent"):
                 tasks.append({"kind": "accept", "types": types, "required": req, "what": what})
+        # the same object in two positions that require different types: accepted exactly when its type fits both
+        for req, req2 in (("t1", "t3"), ("t3", "t1"), ("t4", "t1"), ("t1", "object"), ("object", "t3"), ("t2", "t1")):
+            for what in ("fact_repeated_object", "fluent_repeated_object", "trajectory_fluent_repeated_object"):
+                tasks.append({"kind": "accept", "types": types, "required": req, "required2": req2, "what": what})
     return tasks
 
 
@@ -475,7 +490,7 @@ def main(tier):
         "bounds": {"skeletons": sorted({json.dumps(t["skeleton"]) for t in skeletons(tier)}), "vocabulary": VOC,
                    "consumers_ranging": "forall conditions/effects over t1/t3 on the chain t4<t3<t1 declared children-first, objects "
                                         "o1-t1 o3-t3 o4-t4, with/without constant k; states symbolic (C02/C03 machinery)",
-                   "consumers_checking": "4 declaration orders x 5 required types x fact/fluent, object type symbolic over "
+                   "consumers_checking": "4 declaration orders x (5 required types x fact/fluent + 6 pairs of required types x fact/fluent over the same object twice), object type symbolic over "
                                          "{t1,t2,t3,t4,object}",
                    "outside": "forests deeper than 3 declaration groups (quick) / 4 (thorough); more than 5 names"},
         "functions_executed_symbolically": ["DomainParser.parse_types", "PDDLType.is_sub_type/is_sub_type_aux", "create_type_hierarchy_graph",
